@@ -327,6 +327,8 @@ class PointTier(textgrid_tier.TextgridTier):
             newPoint = Point(entry[0], entry[1])
         else:
             newPoint = entry
+        # Labels are stored without surrounding whitespace (as in the constructor)
+        newPoint = Point(newPoint.time, newPoint.label.strip())
 
         matchList = []
         i = None
